@@ -75,7 +75,10 @@ type CProgram struct {
 	Limit    int
 }
 
-type ctxObj struct{ name string }
+type ctxObj struct {
+	name string
+	x    *Extractor // set by the injector extractor: Err() is then an observable probe
+}
 type chanObj struct{ id string }
 type doneChan struct{ ctx *ctxObj }
 type egObj struct{}
@@ -90,7 +93,24 @@ func init() {
 			return func(fr *frame, args []value) value { return &doneChan{ctx: c} }
 		case "Err":
 			return func(fr *frame, args []value) value {
-				return NewErr("ctxerr", "ctxerr:"+c.name, "context canceled", nil)
+				nonNil := NewErr("ctxerr", "ctxerr:"+c.name, "context canceled", nil)
+				x := c.x
+				if x == nil || x.cur == nil {
+					return nonNil
+				}
+				// right after a select that left through this context's Done(), Err() is non-nil
+				if ls := x.cur.lastSel; ls != nil && ls.Pos == len(x.cur.events)-1 && ls.Chans[ls.Choice].Kind == "done" && ls.Chans[ls.Choice].ID == c.name {
+					return nonNil
+				}
+				// anywhere else it is a probe: non-nil exactly if the context is done by now
+				ps := fr.i.ps
+				ev := x.rec(ps, CEvent{Kind: "probe", Chans: []ChanRef{{Kind: "done", ID: c.name}}, Decision: true, Site: x.siteOf() + ":ctx-err-probe", Line: x.lineOf(fr.i.callpos)})
+				ch := ps.Choice(2, "probe")
+				ev.Choice = ch
+				if ch == 0 {
+					return iface{}
+				}
+				return nonNil
 			}
 		}
 		return nil
@@ -540,7 +560,7 @@ func (x *Extractor) install() {
 	}
 	const eg = "golang.org/x/sync/errgroup"
 	e.Intercepts[eg+".WithContext"] = func(ps *PathState, fr *frame, fn *ssa.Function, args []value) value {
-		return tuple{&egObj{}, iface{t: symCtxType, v: &ctxObj{name: "derived"}}}
+		return tuple{&egObj{}, iface{t: symCtxType, v: &ctxObj{name: "derived", x: x}}}
 	}
 	e.Intercepts["(*"+eg+".Group).Go"] = func(ps *PathState, fr *frame, fn *ssa.Function, args []value) value {
 		if x.cur.thread != 0 {
@@ -662,7 +682,7 @@ func ExtractInjectorOpt(e *Engine, pkg *ssa.Package, f *ssa.Function, opt Extrac
 		for i := 0; i < sig.Params().Len(); i++ {
 			t := sig.Params().At(i).Type()
 			if t.String() == "context.Context" {
-				args = append(args, iface{t: symCtxType, v: &ctxObj{name: "parent"}})
+				args = append(args, iface{t: symCtxType, v: &ctxObj{name: "parent", x: x}})
 				x.prog.ParamTerms = append(x.prog.ParamTerms, "in_ctx")
 				continue
 			}
